@@ -137,6 +137,18 @@ fn long_cases(v: &mut Vec<Req>) {
     v.push(get("page", "/page?min=4294967295&kind=Green&flag=false&limit=5"));
     v.push(get("page", "/page?limit=0"));
     v.push(get("page", "/page?limit=5&limit=5"));
+    // page tokens that cannot be decoded into the selector: blank, not base64, base64 of
+    // something that is not the envelope, beside valid scan parameters and alone
+    for tok in [
+        "", "=", "%20", "AAAA", "e30=", "bm90IGpzb24=", "eyJ2IjoidjEifQ==", "eyJ2IjoidjIiLCJwYWdlX3N0YXJ0Ijp7fX0=", "!!!!",
+        "e30",
+    ] {
+        v.push(get("page", &format!("/page?page_token={}", tok)));
+        v.push(get("page", &format!("/page?limit=3&page_token={}", tok)));
+        v.push(get("page", &format!("/page?page_token={}&min=3&kind=Green", tok)));
+    }
+    v.push(get("page", "/page?page_token"));
+    v.push(get("page", "/page?page_token&limit=2"));
     v.push(req("bigform", "POST", b"/bigform", Some(FORM_CT), Framing::Cl, b"id=9&name=bob"));
     v.push(req("bigjson", "POST", b"/bigjson", Some(JSON_CT), Framing::Cl, br#"{"id":1,"s":"x","e":"Red"}"#));
 }
